@@ -406,8 +406,11 @@ def load_known():
 
 
 class Ctx:
-    def __init__(self, prop, tier="quick", seed=None):
+    def __init__(self, prop, tier="quick", seed=None, clean=True):
         self.prop = prop
+        if clean:
+            for old in (BUILD / "replay").glob(f"{prop}_*.json"):
+                old.unlink()
         self.tier = tier if tier in ("quick", "thorough") else "quick"
         self.seed = int(seed if seed is not None else os.environ.get("VERIF_SEED", "20260926"))
         self.rng = random.Random(f"{prop}:{self.seed}")
